@@ -3,6 +3,7 @@ package main
 import (
 	"fmt"
 	"go/token"
+	"sort"
 	"strings"
 
 	"golang.org/x/tools/go/ssa"
@@ -185,65 +186,123 @@ func ruleR10_4(w *World, r *Report) {
 	}
 }
 
+// assumeHelpers: the methods of Solver that fn calls directly and that bind literals at level 1 or flag assumptions
+// (the binding loops of Assume moved into helpers), with their call sites in fn.
+func assumeHelpers(w *World, fn *ssa.Function) map[*ssa.Function]*ssa.Call {
+	out := map[*ssa.Function]*ssa.Call{}
+	count := map[*ssa.Function]int{}
+	for _, ci := range callsIn(fn) {
+		c, ok := ci.(*ssa.Call)
+		if !ok {
+			continue
+		}
+		g := c.Call.StaticCallee()
+		if g == nil || len(g.Blocks) == 0 || w.PkgName(g) != "solver" || g.Signature.Recv() == nil || typeShort(g.Signature.Recv().Type()) != "*solver.Solver" {
+			continue
+		}
+		binds := false
+		allInstrs(g, func(ins ssa.Instruction) {
+			st, isS := ins.(*ssa.Store)
+			if !isS || !inLoop(g, st.Block()) {
+				return
+			}
+			if _, isB := level1Binding(st); isB {
+				binds = true
+			}
+			if ia, isIA := st.Addr.(*ssa.IndexAddr); isIA {
+				if _, isF := isFieldLoad(ia.X, "solver.Solver", "assumptions"); isF {
+					binds = true
+				}
+			}
+		})
+		if binds {
+			out[g] = c
+			count[g]++
+		}
+	}
+	for g, k := range count {
+		if k != 1 {
+			delete(out, g) // called several times: no single position in fn
+		}
+	}
+	return out
+}
+
 // reinstallsFacts returns "" when, after the instruction `after`, fn runs a loop over all of Solver.facts binding each
 // element at level 1 and appending it to the trail, with no trail reset and no retraction after it; otherwise the reason.
 func reinstallsFacts(w *World, fn *ssa.Function, after ssa.Instruction) string {
 	var reasons []string
 	found := false
-	allInstrs(fn, func(ins ssa.Instruction) {
-		st, ok := ins.(*ssa.Store)
-		if !ok || found {
-			return
+	helperSite := assumeHelpers(w, fn)
+	scope := []*ssa.Function{fn}
+	for g := range helperSite {
+		scope = append(scope, g)
+	}
+	// where an instruction of a helper takes place in fn
+	proxy := func(ins ssa.Instruction) ssa.Instruction {
+		if c, ok := helperSite[ins.Parent()]; ok && ins.Parent() != fn {
+			return c
 		}
-		lit, ok := level1Binding(st)
-		if !ok {
-			return
-		}
-		sl, idx, ok := elemOfSlice(lit)
-		if !ok {
-			return
-		}
-		if _, isFacts := isFieldLoad(sl, "solver.Solver", "facts"); !isFacts {
-			return
-		}
-		if !fullRangeIndex(idx, func(b ssa.Value) bool {
-			return isLenOf(b, func(x ssa.Value) bool { return sameFieldLoad(x, sl) })
-		}) {
-			reasons = append(reasons, "the loop over the recorded unit clauses at "+w.InstrPos(st)+" does not visit all of them")
-			return
-		}
-		if !instrDominates(after, st) {
-			reasons = append(reasons, "the recorded unit clauses are bound at "+w.InstrPos(st)+" before the retraction, which unbinds them again")
-			return
-		}
-		// trail append of the same literal in the same iteration
-		trailed := false
-		for _, ts := range storesToField(fn, "solver.Solver", "trail") {
-			if c, ok := ts.Val.(*ssa.Call); ok && appendedElem(c) == lit && ts.Block() == st.Block() {
-				trailed = true
-			}
-		}
-		if !trailed {
-			reasons = append(reasons, "the unit clauses bound again at "+w.InstrPos(st)+" are not pushed on the trail, so they are never propagated")
-			return
-		}
-		// nothing after the loop empties the trail or retracts again
-		for _, ts := range storesToField(fn, "solver.Solver", "trail") {
-			if slc, ok := ts.Val.(*ssa.Slice); ok && slc.High != nil && instrReachableFrom(st, ts) {
-				reasons = append(reasons, "the trail is cut at "+w.InstrPos(ts)+" after the unit clauses were pushed on it")
+		return ins
+	}
+	for _, g := range scope {
+		allInstrs(g, func(ins ssa.Instruction) {
+			st, ok := ins.(*ssa.Store)
+			if !ok || found {
 				return
 			}
-		}
-		for _, cj := range callsIn(fn) {
-			if callee := cj.Common().StaticCallee(); callee != nil && cj != after {
-				if cl := levelCleaner(w); cl == callee && instrReachableFrom(st, cj) {
-					reasons = append(reasons, "bindings are retracted again at "+w.InstrPos(cj)+" after the unit clauses were bound")
-					return
+			lit, ok := level1Binding(st)
+			if !ok {
+				return
+			}
+			sl, idx, ok := elemOfSlice(lit)
+			if !ok {
+				return
+			}
+			if _, isFacts := isFieldLoad(sl, "solver.Solver", "facts"); !isFacts {
+				return
+			}
+			if !fullRangeIndex(idx, func(b ssa.Value) bool {
+				return isLenOf(b, func(x ssa.Value) bool { return sameFieldLoad(x, sl) })
+			}) {
+				reasons = append(reasons, "the loop over the recorded unit clauses at "+w.InstrPos(st)+" does not visit all of them")
+				return
+			}
+			if !instrDominates(after, proxy(st)) {
+				reasons = append(reasons, "the recorded unit clauses are bound at "+w.InstrPos(st)+" before the retraction, which unbinds them again")
+				return
+			}
+			// trail append of the same literal in the same iteration
+			trailed := false
+			for _, ts := range storesToField(g, "solver.Solver", "trail") {
+				if c, ok := ts.Val.(*ssa.Call); ok && appendedElem(c) == lit && ts.Block() == st.Block() {
+					trailed = true
 				}
 			}
-		}
-		found = true
-	})
+			if !trailed {
+				reasons = append(reasons, "the unit clauses bound again at "+w.InstrPos(st)+" are not pushed on the trail, so they are never propagated")
+				return
+			}
+			// nothing after the loop empties the trail or retracts again
+			for _, g2 := range scope {
+				for _, ts := range storesToField(g2, "solver.Solver", "trail") {
+					if slc, ok := ts.Val.(*ssa.Slice); ok && slc.High != nil && proxy(ts) != proxy(st) && instrReachableFrom(proxy(st), proxy(ts)) {
+						reasons = append(reasons, "the trail is cut at "+w.InstrPos(ts)+" after the unit clauses were pushed on it")
+						return
+					}
+				}
+			}
+			for _, cj := range callsIn(fn) {
+				if callee := cj.Common().StaticCallee(); callee != nil && cj != after {
+					if cl := levelCleaner(w); cl == callee && instrReachableFrom(proxy(st), cj) {
+						reasons = append(reasons, "bindings are retracted again at "+w.InstrPos(cj)+" after the unit clauses were bound")
+						return
+					}
+				}
+			}
+			found = true
+		})
+	}
 	if found {
 		return ""
 	}
@@ -441,21 +500,54 @@ func ruleR10_1_3(w *World, r *Report) {
 	}
 	name := w.FuncName(fn)
 	lits := fn.Params[1]
+	// the binding loops may live in helper methods called by Assume (`s.bindFacts()`, `s.bindAssumptions(lits)`):
+	// what happens in a helper is ordered, inside Assume, at the helper's call site
+	helperSite := assumeHelpers(w, fn)
+	proxy := func(ins ssa.Instruction) ssa.Instruction {
+		if ins.Parent() == fn {
+			return ins
+		}
+		if c, ok := helperSite[ins.Parent()]; ok {
+			return c
+		}
+		return ins
+	}
+	// the list a literal is taken from, seen from Assume: a helper's parameter stands for the argument at its call site
+	listInAssume := func(g *ssa.Function, sl ssa.Value) ssa.Value {
+		if g == fn {
+			return sl
+		}
+		if p, ok := sl.(*ssa.Parameter); ok {
+			if c, okc := helperSite[g]; okc {
+				if pi := paramIndex(g, p); pi >= 0 && pi < len(c.Call.Args) {
+					return c.Call.Args[pi]
+				}
+			}
+		}
+		return sl
+	}
+	scope := []*ssa.Function{fn}
+	for g := range helperSite {
+		scope = append(scope, g)
+	}
+	sort.Slice(scope, func(i, j int) bool { return w.FuncName(scope[i]) < w.FuncName(scope[j]) })
 	// install sites: stores of true into assumptions[...]
 	var flagStores []*ssa.Store
-	allInstrs(fn, func(ins ssa.Instruction) {
-		st, ok := ins.(*ssa.Store)
-		if !ok {
-			return
-		}
-		ia, ok := st.Addr.(*ssa.IndexAddr)
-		if !ok {
-			return
-		}
-		if _, ok := isFieldLoad(ia.X, "solver.Solver", "assumptions"); ok {
-			flagStores = append(flagStores, st)
-		}
-	})
+	for _, g := range scope {
+		allInstrs(g, func(ins ssa.Instruction) {
+			st, ok := ins.(*ssa.Store)
+			if !ok {
+				return
+			}
+			ia, ok := st.Addr.(*ssa.IndexAddr)
+			if !ok {
+				return
+			}
+			if _, ok := isFieldLoad(ia.X, "solver.Solver", "assumptions"); ok {
+				flagStores = append(flagStores, st)
+			}
+		})
+	}
 	// R10.1
 	{
 		var bad []string
@@ -482,10 +574,10 @@ func ruleR10_1_3(w *World, r *Report) {
 			bad = append(bad, "no literal is flagged as assumed")
 		}
 		for _, fs := range flagStores {
-			if fresh != nil && !instrDominates(fresh, fs) {
+			if fresh != nil && !instrDominates(fresh, proxy(fs)) {
 				bad = append(bad, "a flag is set at "+w.InstrPos(fs)+" before the table is re-created")
 			}
-			if reset != nil && !instrDominates(reset, fs) {
+			if reset != nil && !instrDominates(reset, proxy(fs)) {
 				bad = append(bad, "a literal is installed at "+w.InstrPos(fs)+" before the trail is emptied")
 			}
 		}
@@ -520,7 +612,82 @@ func ruleR10_1_3(w *World, r *Report) {
 	// contradicts a unit clause of the problem or an earlier literal of the same list): the round is over.
 	var refuted []*ssa.Store
 	unsatK, _ := w.statusConst("Unsat")
+	// helperRefutes: every `return false` of the helper is under an already-false test of an element of a literal list
+	helperRefutes := func(g *ssa.Function) bool {
+		if g.Signature.Results().Len() != 1 || typeShort(g.Signature.Results().At(0).Type()) != "bool" {
+			return false
+		}
+		ok, any := true, false
+		allInstrs(g, func(ins ssa.Instruction) {
+			ret, isRet := ins.(*ssa.Return)
+			if !isRet || len(ret.Results) != 1 {
+				return
+			}
+			k, isK := ret.Results[0].(*ssa.Const)
+			if !isK || k.Value == nil {
+				ok = false
+				return
+			}
+			if k.Value.String() != "false" {
+				return
+			}
+			any = true
+			just := false
+			for _, ec := range dominatingConds(ret.Block()) {
+				bo, isB := ec.Cond.(*ssa.BinOp)
+				if !isB || bo.Op != token.EQL || !ec.True {
+					continue
+				}
+				if kk, isKK := constInt(bo.Y); !isKK || kk != unsatK {
+					continue
+				}
+				if c, isC := bo.X.(*ssa.Call); isC && typeShort(c.Type()) == "solver.Status" {
+					for _, a := range c.Call.Args {
+						if _, _, isE := elemOfSlice(a); isE {
+							just = true
+						}
+					}
+				}
+			}
+			if !just {
+				ok = false
+			}
+		})
+		return ok && any
+	}
 	alreadyFalse := func(b *ssa.BasicBlock) bool {
+		// every edge into the block reports that a binding helper failed on an already false literal
+		if len(b.Preds) > 0 {
+			all := true
+			for _, p := range b.Preds {
+				iff, isIf := p.Instrs[len(p.Instrs)-1].(*ssa.If)
+				if !isIf {
+					all = false
+					break
+				}
+				cond, pol := iff.Cond, p.Succs[0] == b
+				for {
+					u, isU := cond.(*ssa.UnOp)
+					if !isU || u.Op != token.NOT {
+						break
+					}
+					cond, pol = u.X, !pol
+				}
+				c, isC := cond.(*ssa.Call)
+				if !isC || pol {
+					all = false
+					break
+				}
+				g := c.Call.StaticCallee()
+				if g == nil || helperSite[g] == nil || !helperRefutes(g) {
+					all = false
+					break
+				}
+			}
+			if all {
+				return true
+			}
+		}
 		for _, ec := range dominatingConds(b) {
 			bo, ok := ec.Cond.(*ssa.BinOp)
 			if !ok || bo.Op != token.EQL || !ec.True {
@@ -619,7 +786,7 @@ func ruleR10_1_3(w *World, r *Report) {
 				}
 			})
 			for _, fs := range flagStores {
-				if !instrReachableFrom(fs, prop) || instrReachableFrom(prop, fs) {
+				if !instrReachableFrom(proxy(fs), prop) || instrReachableFrom(prop, proxy(fs)) {
 					bad = append(bad, "propagation does not come after the install loop")
 				}
 			}
@@ -674,7 +841,7 @@ func ruleR10_1_3(w *World, r *Report) {
 			// the same iteration (a test made in an earlier loop sees only the facts, not the assumptions bound since)
 			// the binding call may sit in an earlier block than the flag store: the test must dominate it too
 			testAt := b
-			for _, ci := range callsIn(fn) {
+			for _, ci := range callsIn(fs.Parent()) {
 				c, isC := ci.(*ssa.Call)
 				if !isC {
 					continue
@@ -719,7 +886,7 @@ func ruleR10_1_3(w *World, r *Report) {
 			// it must be an element of the lits parameter
 			if u, ok := lit.(*ssa.UnOp); !ok || u.Op != token.MUL {
 				bad = append(bad, "the installed literal is not an element of the parameter")
-			} else if ia2, ok := u.X.(*ssa.IndexAddr); !ok || ia2.X != ssa.Value(lits) {
+			} else if ia2, ok := u.X.(*ssa.IndexAddr); !ok || listInAssume(fs.Parent(), ia2.X) != ssa.Value(lits) {
 				bad = append(bad, "the installed literal is not an element of the parameter")
 			}
 		}
